@@ -23,6 +23,7 @@
 from abc import abstractmethod
 import datetime
 from typing import Any, Callable
+import urllib.parse
 
 from dashlive.mpeg.mp4 import EventMessageBox
 from dashlive.server.options.dash_option import DashOption
@@ -64,7 +65,7 @@ class EventBase(ObjectWithFields):
         Get a list of all DASH options for this event
         """
         def default_to_string(val: Any) -> str:
-            return str(val)
+            return urllib.parse.quote_plus(str(val))
 
         result: list[DashOption] = []
         for key, dflt in cls.DEFAULT_VALUES.items():
